@@ -99,11 +99,11 @@ CHECKS["C11"] = {"text": "Proved on the model: sort_task_list (9 rules), sort_wo
     "note": COMMON_NOTE + " Pure sort correspondence by generated cases files (no extraction).",
     "technique": "Coq proof (stable insertion sort: permutation, sortedness, stability) + vm_compute correspondence on pure lists + greedy-prefix theorem for allocation (workers and worker-facility pairs) + oracle for allocation inversions"}
 CHECKS["C09"] = {"text": "Proved on the model: a run with state and log initialisation is a function of configuration and options only -- simulate c o s = simulate c o s' for ALL incoming "
-    "states, hence calling simulate again on a simulated project gives the identical result and no hidden state survives; the set of finished top-level components and the set of NONE tasks may "
-    "be visited in any order with the same result (finishing and both PERT passes iterate ordered lists since the repairs). The parts that live in the Python runtime are covered by the harness: "
+    "states, hence calling simulate again on a simulated project gives the identical result and no hidden state survives; the set of finished top-level components, the set of NONE tasks and the target set of __check_working may "
+    "be visited in any order with the same result (pairwise commuting visits) (finishing and both PERT passes iterate ordered lists since the repairs). The parts that live in the Python runtime are covered by the harness: "
     "forced set-visit orders (5 per case), re-simulation on the same object, default-argument calls on a fresh object after a log edit, and fresh processes with other PYTHONHASHSEED and shifted heap.",
     "note": COMMON_NOTE.replace("no axioms (Print Assumptions: closed under the global context)", "one standard-library axiom: functional_extensionality_dep (used to state order independence as equality of states)") +
-            " PARTIAL: order independence of __check_working's set and the process-level clauses are exercised by the harness, not proved.",
+            " PARTIAL: the process-level clauses (hash seed, heap layout, fresh process) are exercised by the harness, not proved.",
     "technique": "Coq proof (independence of the incoming state; commuting folds over permutations) + harness: forced visit orders, rerun, fresh processes"}
 CHECKS["C20"] = {"text": "Proved on the model: configuring from a successfully simulated project sets the work amount to its duration (minus the number of distinct absence steps inside the run when "
     "they are removed), takes over its unit time, and the unit rate becomes parent unit / sub-project unit; configuring from any other project is refused with a warning and changes nothing; an automatic "
